@@ -114,6 +114,18 @@ def fd_integrals_form(fd):
     return Form(itgs)
 
 
+def signature_in_context(form, other):
+    """ufl.algorithms.compute_form_signature(form, numbering of form + other): the public
+    signature function called the way a form compiler does for a sub-form."""
+    from ufl.algorithms import compute_form_signature as cfs
+
+    big = form + other
+    ren = {}
+    ren.update(big.domain_numbering())
+    ren.update(big.terminal_numbering())
+    return cfs(form, ren)
+
+
 def fd_touch(fd):
     """Read the public attributes of FormData (lazily computed ones included)."""
     out = []
